@@ -245,7 +245,32 @@ func ruleWaitBeforeReturn(c *Ctx, rule string) {
 				nWait++
 			}
 		}
-		c.check(nWait == len(returnsOf(wf)) && nWait >= 2, rule, "generateAsyncWaitStatements:both-branches-wait", "-", "both forms of the wait statement (with and without error result) call Wait on the group", fmt.Sprintf("%d of %d returned lists contain <group>.Wait()", nWait, len(returnsOf(wf))))
+		okWait := nWait == len(returnsOf(wf)) && nWait >= 2
+		why := fmt.Sprintf("%d of %d returned lists contain <group>.Wait()", nWait, len(returnsOf(wf)))
+		if !okWait {
+			// the call expression may come from a builder helper: count the instantiated templates instead (one per form)
+			k := 0
+			wd := funcDeclOfSSA(L, wf)
+			for _, s := range collectTemplates(L.Pkgs[genPkg]) {
+				if s.kind != "SelectorExpr" {
+					continue
+				}
+				root := s
+				for root.parent != nil {
+					root = root.parent
+				}
+				if root.fn != wd {
+					continue
+				}
+				if n, ok := identConst(s.pkg, s.fn, s.fields["Sel"]); ok && n == "Wait" {
+					k++
+				}
+			}
+			if k >= len(returnsOf(wf)) && k >= 2 {
+				okWait, why = true, fmt.Sprintf("%d instantiated <group>.Wait() templates for %d returned lists", k, len(returnsOf(wf)))
+			}
+		}
+		c.check(okWait, rule, "generateAsyncWaitStatements:both-branches-wait", "-", "both forms of the wait statement (with and without error result) call Wait on the group", why)
 	} else {
 		c.check(nWait >= 2, rule, "generateAsyncWaitStatements:both-branches-wait", "-", "both forms of the wait statement (with and without error result) call Wait on the group", fmt.Sprintf("%d Wait templates", nWait))
 	}
@@ -269,8 +294,12 @@ func ruleChainWrapped(c *Ctx, rule string) {
 		}
 	}
 	for _, s := range sites {
-		if !famDecl[s.fn] {
-			continue
+		root := s
+		for root.parent != nil {
+			root = root.parent
+		}
+		if !famDecl[s.fn] && !famDecl[root.fn] {
+			continue // (a builder helper's literal belongs to the function it is instantiated in)
 		}
 		if s.kind == "FuncLit" && s.parent != nil && s.parent.kind == "CallExpr" && s.slot == "Args" {
 			if fun := s.parent.fields["Fun"]; fun != nil {
@@ -394,7 +423,18 @@ func ruleAsyncFlag(c *Ctx, rule string) {
 					}
 				}
 			}
-			for _, f := range []string{"IsAsync", "IsReturnError", "IsStruct", "StructType", "Requires", "Provides"} {
+			// every field of the result type, whatever fields it has today (a flag added later must be carried over too)
+			var fieldNames []string
+			isBool := map[string]bool{}
+			if pt, isP := al.Type().(*types.Pointer); isP {
+				if st, isS := pt.Elem().Underlying().(*types.Struct); isS {
+					for i := 0; i < st.NumFields(); i++ {
+						fieldNames = append(fieldNames, st.Field(i).Name())
+						isBool[st.Field(i).Name()] = st.Field(i).Type().Underlying().String() == "bool"
+					}
+				}
+			}
+			for _, f := range fieldNames {
 				v, ok := stored["internal/kessoku.parseProviderTypeResult."+f]
 				okF := ok
 				why := "field not set on the copy"
@@ -402,7 +442,7 @@ func ruleAsyncFlag(c *Ctx, rule string) {
 					s := newSym(L, map[string]bool{})
 					t := strings.Join(s.eval(v), "|")
 					why = t
-					if (f == "IsAsync" || f == "IsReturnError" || f == "IsStruct") && !(strings.Contains(t, "parseProviderTypeResult."+f+"(") || t == "true") {
+					if isBool[f] && !(strings.Contains(t, "parseProviderTypeResult."+f+"(") || t == "true") {
 						okF = false
 					}
 				}
@@ -909,6 +949,13 @@ func ruleContextThreaded(c *Ctx, rule string) {
 		okAll := inj != nil
 		for _, r := range returnsOf(build) {
 			if returnsNilError(r) && inj != nil {
+				if errorResultIndex(inj.Common().StaticCallee()) < 0 {
+					// an injection step that cannot fail: it only has to come first
+					if !instrDominates(inj, r) {
+						okAll = false
+					}
+					continue
+				}
 				if ok, _ := checkedBefore(inj, r); !ok {
 					okAll = false
 				}
